@@ -2,4 +2,5 @@ pub mod chaos;
 pub mod driver;
 pub mod exh;
 pub mod sim;
+pub mod simmon;
 pub mod sweep;
